@@ -31,6 +31,9 @@ inductive Value where
   | null
   | list (elems : List Value) (sep : Sep) (bracketed : Bool)
   | map (pairs : List (Value × Value))
+  /-- The argument list bound to a rest parameter: a list (never bracketed) whose `type-of` is
+      `arglist`. -/
+  | arglist (elems : List Value) (sep : Sep)
 deriving Inhabited
 
 def Value.truthy : Value → Bool
@@ -47,6 +50,9 @@ def Value.eq : Value → Value → Bool
   | .bool a, .bool b => a == b
   | .null, .null => true
   | .list as sa ba, .list bs sb bb => sa == sb && ba == bb && eqList as bs
+  | .arglist as sa, .arglist bs sb => sa == sb && eqList as bs
+  | .arglist as sa, .list bs sb bb => sa == sb && !bb && eqList as bs
+  | .list as sa ba, .arglist bs sb => sa == sb && !ba && eqList as bs
   | .map as, .map bs => eqPairs as bs
   | _, _ => false
 def eqList : List Value → List Value → Bool
@@ -66,6 +72,7 @@ def Value.isBlank : Value → Bool
   | .null => true
   | .str s false => s.isEmpty
   | .list es _ br => if br then false else allBlank es
+  | .arglist es _ => allBlank es
   | _ => false
 def allBlank : List Value → Bool
   | [] => true
@@ -129,9 +136,16 @@ def Value.toCss : Value → Except PrintErr String
       .ok (if br then "[" ++ body ++ "]" else body)
     | .error e => .error e
   | .map _ => .error .invalidCss
-/-- Texts of the non-blank elements. -/
+  | .arglist es sep =>
+    if es.isEmpty then .error .invalidCss else
+    match toCssList es with
+    | .ok parts => .ok ((sepText sep).intercalate parts)
+    | .error e => .error e
+/-- Texts of the non-blank elements.  (An empty argument list nested in a list is outside the
+    model: grass does not treat it as blank.) -/
 def toCssList : List Value → Except PrintErr (List String)
   | [] => .ok []
+  | .arglist [] _ :: _ => .error .unsupported
   | v :: vs =>
     if v.isBlank then toCssList vs else
     match v.toCss, toCssList vs with
@@ -167,8 +181,18 @@ def Value.inspect : Value → Except PrintErr String
     match inspectPairs ps with
     | .ok parts => .ok ("(" ++ ", ".intercalate parts ++ ")")
     | .error e => .error e
+  | .arglist es sep =>
+    if es.isEmpty then .ok "()" else
+    match inspectList sep es with
+    | .ok parts =>
+      let single := es.length == 1 && sep == .comma
+      let body := (sepText sep).intercalate parts ++ (if single then "," else "")
+      .ok (if single then "(" ++ body ++ ")" else body)
+    | .error e => .error e
+/-- (An argument list nested in another list is outside the model: grass never parenthesises it.) -/
 def inspectList (sep : Sep) : List Value → Except PrintErr (List String)
   | [] => .ok []
+  | .arglist _ _ :: _ => .error .unsupported
   | v :: vs =>
     match v.inspect, inspectList sep vs with
     | .ok s, .ok ss => .ok ((if needsParens sep v then "(" ++ s ++ ")" else s) :: ss)
@@ -398,6 +422,12 @@ def numOp (op : BinOp) (a b : Rat) : Option Value :=
   | .ge => some (.bool (a ≥ b))
   | _ => none
 
+/-- Strings longer than this are outside the model (keeps run-away concatenation cheap). -/
+def strCap : Nat := 4096
+
+def mkStr (s : String) (q : Bool) : M Value :=
+  if s.length > strCap then fail .unsupported else pure (.str s q)
+
 /-- Strict binary operators on evaluated operands (`and`/`or` are handled lazily by the caller). -/
 def binOp (op : BinOp) (a b : Value) : M Value :=
   match op with
@@ -411,14 +441,14 @@ def binOp (op : BinOp) (a b : Value) : M Value :=
       | none => fail .unsupported
     | .str s q, _ =>
       match b with
-      | .str t _ => pure (.str (s ++ t) q)
+      | .str t _ => mkStr (s ++ t) q
       | .map _ => fail .invalidCss
-      | _ => do let t ← liftPrint b.toCss; pure (.str (s ++ t) q)
+      | _ => do let t ← liftPrint b.toCss; mkStr (s ++ t) q
     | _, .str t q =>
       match a with
       | .map _ => fail .invalidCss
       | .list .. => fail .unsupported
-      | _ => do let s ← liftPrint a.toCss; pure (.str (s ++ t) q)
+      | _ => do let s ← liftPrint a.toCss; mkStr (s ++ t) q
     | _, _ => fail .unsupported
   | .sub | .mul | .mod =>
     match a, b with
@@ -507,6 +537,7 @@ def evalArgs (r : Rec) (ctx : Ctx) (a : Args) : M Evaled := do
   | some e =>
     match ← r.expr ctx e with
     | .list es sep _ => pure { pos := pos ++ es, named, sep }
+    | .arglist es sep => pure { pos := pos ++ es, named, sep }
     | .map _ => fail .unsupported
     | v => pure { pos := pos ++ [v], named }
 
@@ -516,12 +547,13 @@ def bindRest (r : Rec) (ctx : Ctx) (fid : Nat) :
     List (String × Option Expr) → List (String × Value) → M (List (String × Value))
   | [], named => pure named
   | (p, d) :: ps, named => do
-    match alGet named p with
-    | some v => setVarIn fid p v
-    | none =>
-      match d with
-      | some e => do let v ← r.expr ctx e; setVarIn fid p v
-      | none => fail .missingArgument
+    let v ← (match alGet named p with
+      | some v => pure v
+      | none =>
+        match d with
+        | some e => r.expr ctx e
+        | none => fail .missingArgument)
+    setVarIn fid p v
     bindRest r ctx fid ps (alErase named p)
 
 def bindPositional (fid : Nat) : List (String × Option Expr) → List Value → M Unit
@@ -539,11 +571,11 @@ def invoke {α : Type} (r : Rec) (dev : Dev) (mk : Nat → Ctx) (ps : Params) (e
   | none =>
     bindPositional fid ps.ps ev.pos
     let left ← bindRest r ctx fid (ps.ps.drop ev.pos.length) ev.named
-    match ps.rest with
-    | some rn =>
-      let sep := if dev.restAlwaysComma || ev.sep == .undecided then Sep.comma else ev.sep
-      setVarIn fid rn (.list (ev.pos.drop ps.ps.length) sep false)
-    | none => pure ()
+    let _ ← (match ps.rest with
+      | some rn =>
+        let sep := if dev.restAlwaysComma || ev.sep == .undecided then Sep.comma else ev.sep
+        setVarIn fid rn (.arglist (ev.pos.drop ps.ps.length) sep)
+      | none => pure ())
     let out ← body ctx
     if ps.rest.isSome && !left.isEmpty then fail .noArgumentNamed else pure out
 
@@ -555,11 +587,13 @@ def builtin (name : String) (ev : Evaled) : Option (M Value) :=
   | "length", [v] =>
     some (pure (.num (match v with
       | .list es _ _ => es.length
+      | .arglist es _ => es.length
       | .map ps => ps.length
       | _ => 1)))
   | "nth", [l, .num q] =>
     let es := match l with
       | .list es _ _ => es
+      | .arglist es _ => es
       | .map ps => ps.map fun (k, v) => .list [k, v] .space false
       | v => [v]
     some (if q.den != 1 || q.num == 0 then fail .unsupported else
@@ -576,7 +610,7 @@ def builtin (name : String) (ev : Evaled) : Option (M Value) :=
   | "type-of", [v] =>
     some (pure (.str (match v with
       | .num _ => "number" | .str .. => "string" | .bool _ => "bool" | .null => "null"
-      | .list .. => "list" | .map _ => "map") false))
+      | .list .. => "list" | .map _ => "map" | .arglist .. => "arglist") false))
   | "not", [v] => some (pure (.bool !v.truthy))
   | _, _ => none
 
@@ -644,7 +678,7 @@ def exprF (r : Rec) (ctx : Ctx) : Expr → M Value
     if x.truthy then r.expr ctx a else r.expr ctx b
   | .interp q parts => do
     let s ← evalInterp (r.expr ctx) parts
-    pure (.str s q)
+    mkStr s q
   | .call f pos named rest => do
     let ev ← evalArgs r ctx { pos, named, rest }
     let st ← getSt
@@ -689,6 +723,7 @@ def eachBind (fid : Nat) : List String → List Value → M Unit
 
 def asList : Value → List Value
   | .list es _ _ => es
+  | .arglist es _ => es
   | .map ps => ps.map fun (k, v) => .list [k, v] .space false
   | v => [v]
 
@@ -696,9 +731,10 @@ def stmtF (r : Rec) (ctx : Ctx) : Stmt → M (Option Value)
   | .decl prop e => do
     if ctx.sel.isEmpty then fail .declOutsideRule else
     let v ← r.expr ctx e
-    let emptyList := match v with | .list [] _ false => true | .map [] => true | _ => false
+    let emptyList := match v with | .list [] _ false => true | .map [] => true | .arglist [] _ => true | _ => false
+    let droppedAsFound := match v with | .list [] _ false => ctx.dev.emptyListDeclDropped | _ => false
     if v.isBlank && !emptyList then pure none else
-    if emptyList && ctx.dev.emptyListDeclDropped then pure none else
+    if droppedAsFound then pure none else
     let txt : Option String ← (match v.toCss with
       | .ok s => pure (some s)
       | .error .invalidCss => pure none
@@ -833,7 +869,7 @@ def evalProgram (dev : Dev) (fuel : Nat) (prog : List Stmt) : Outcome :=
   | .ok _ st =>
     -- declaration values are turned into CSS text when the stylesheet is serialised, after
     -- evaluation has finished
-    if st.css.any (fun d => d.2.2.isNone) then .failed .invalidCss st else .finished st
+    if st.css.toList.any (fun d => d.2.2.isNone) then .failed .invalidCss st else .finished st
   | .err e st => .failed e st
   | .oof => .outOfFuel
 
